@@ -368,6 +368,10 @@ func cmdCheck(args []string) int {
 				o.err = err
 				return
 			}
+			if h.Func == "@lockbalance" {
+				o.rep, o.err = runLockBalance(P, cfg)
+				return
+			}
 			o.rep, o.err = runHarness(P, cfg, nil, nil)
 			if o.err == nil && h.Twin != nil && !*noTwin {
 				tcfg, err := buildCfg(cf, h, *tier, true)
@@ -655,4 +659,68 @@ func z3Version() string {
 		z3v = "4.8.12"
 	}
 	return z3v
+}
+
+// runLockBalance: universal lock-balance check (C12a): every root function
+// that can reach a mutex operation, from an arbitrary state.
+func runLockBalance(P *Program, cfg *RunCfg) (*Report, error) {
+	roots := findLazyRoots(P)
+	if only := os.Getenv("GOSYM_LAZY_ONLY"); only != "" {
+		var rr []*ssa.Function
+		for _, r := range roots {
+			if strings.Contains(r.String(), only) {
+				rr = append(rr, r)
+			}
+		}
+		roots = rr
+	}
+	if len(roots) == 0 {
+		return nil, fmt.Errorf("no lock-using functions found")
+	}
+	reps := make([]*Report, len(roots))
+	errs := make([]error, len(roots))
+	sem := make(chan struct{}, 14)
+	var wg sync.WaitGroup
+	for i, r := range roots {
+		wg.Add(1)
+		go func(i int, r *ssa.Function) {
+			defer wg.Done()
+			sem <- struct{}{}
+			defer func() { <-sem }()
+			reps[i], errs[i] = runLazyRoot(P, cfg, r)
+		}(i, r)
+	}
+	wg.Wait()
+	var unanalysed []string
+	var perRoot []map[string]interface{}
+	for i, r := range reps {
+		if errs[i] != nil {
+			return nil, errs[i]
+		}
+		name := strings.ReplaceAll(roots[i].String(), "go.nanomsg.org/mangos/v3/", "")
+		if r.PathKinds["OK"] == 0 {
+			unanalysed = append(unanalysed, name)
+		}
+		perRoot = append(perRoot, map[string]interface{}{"root": name, "paths": r.Paths, "kinds": r.PathKinds, "balance_checks": r.Obligations})
+	}
+	m := mergeReports(reps)
+	m.Cfg = cfg
+	// vacuity: the 'returned' marker must have been reached in (nearly) every root
+	m.Samples = nil
+	for i, pr := range perRoot {
+		if i < 400 {
+			m.Samples = append(m.Samples, pr)
+		}
+	}
+	m.Reached["roots"] = len(roots)
+	m.Reached["roots-with-a-completed-path"] = len(roots) - len(unanalysed)
+	if len(unanalysed) > 0 {
+		m.Inconclusive = append(m.Inconclusive, fmt.Sprintf("NOTE %d of %d roots had no path reaching a return within the bounds: %s", len(unanalysed), len(roots), strings.Join(unanalysed, ", ")))
+	}
+	if len(m.Violations) > 0 {
+		m.Verdict = "VIOLATED"
+	} else if len(m.Inconclusive) > 0 {
+		m.Verdict = "INCONCLUSIVE"
+	}
+	return m, nil
 }
